@@ -415,6 +415,11 @@ class Interp:
                     p.env[dst] = TOP
                 return None
             name = callee[1:]
+            if name.startswith("llvm.expect"):
+                # likely()/unlikely(): the value of its first operand
+                if dst:
+                    p.env[dst] = args[0]
+                return None
             if name in self.funcs:
                 sub = Interp(self.funcs, self.structs, self.align)
                 sub.nregion = self.nregion
